@@ -14,17 +14,19 @@ def run(res, pool, tier, seed):
     sd = seed % 1000
     if tier == "quick":
         jobs = [dict(module="MC_Mem.tla", tag="s2", invariants=INVS, timeout=1500,
-                     constants=dict(S=2, BODIES=set(POLYH + POLYG), KC=set(KC), KX=set(KX), B=1, SEED=sd, NSHARD=120, NSHARDP=3)),
+                     constants=dict(GENK=set(), NGEN=1, S=2, BODIES=set(POLYH + POLYG), KC=set(KC), KX=set(KX), B=1, SEED=sd, NSHARD=120, NSHARDP=3)),
                 dict(module="MC_Mem.tla", tag="s8-near", invariants=INVS, timeout=1500,
-                     constants=dict(S=8, BODIES={"tet2", "obl", "octa", "hexObl", "par"}, KC={"Segment", "HalfLine"}, KX={"Point"}, B=1,
+                     constants=dict(GENK=set(), NGEN=1, S=8, BODIES={"tet2", "obl", "octa", "hexObl", "par"}, KC={"Segment", "HalfLine"}, KX={"Point"}, B=1,
                                     SEED=sd, NSHARD=40, NSHARDP=10))]
     else:
         jobs = [dict(module="MC_Mem.tla", tag="s2", invariants=INVS, timeout=7200,
-                     constants=dict(S=2, BODIES=set(POLYH + POLYG), KC=set(KC), KX=set(KX), B=1, SEED=sd, NSHARD=12, NSHARDP=1)),
+                     constants=dict(GENK=set(), NGEN=1, S=2, BODIES=set(POLYH + POLYG), KC=set(KC), KX=set(KX), B=1, SEED=sd, NSHARD=12, NSHARDP=1)),
                 dict(module="MC_Mem.tla", tag="s2-dirs2", invariants=INVS, timeout=7200,
-                     constants=dict(S=2, BODIES=set(), KC=set(KC), KX=set(KX) - {"Polygon"}, B=2, SEED=sd, NSHARD=20, NSHARDP=1)),
+                     constants=dict(GENK=set(), NGEN=1, S=2, BODIES=set(), KC=set(KC), KX=set(KX) - {"Polygon"}, B=2, SEED=sd, NSHARD=20, NSHARDP=1)),
+                dict(module="MC_Mem.tla", tag="general-hulls", invariants=INVS, timeout=7200,
+                     constants=dict(GENK={4, 5, 6}, NGEN=4000, S=2, BODIES=set(), KC=set(), KX={"Point", "Segment"}, B=1, SEED=sd, NSHARD=12, NSHARDP=1)),
                 dict(module="MC_Mem.tla", tag="s8-near", invariants=INVS, timeout=7200,
-                     constants=dict(S=8, BODIES=set(POLYH + POLYG), KC=set(KC), KX={"Point"}, B=1, SEED=sd, NSHARD=12, NSHARDP=3))]
+                     constants=dict(GENK=set(), NGEN=1, S=8, BODIES=set(POLYH + POLYG), KC=set(KC), KX={"Point"}, B=1, SEED=sd, NSHARD=12, NSHARDP=3))]
     engine.run_jobs(res, jobs, pool)
     import traces
     traces.run_for(res, ["driver"] if tier == "quick" else ["unit_tests", "driver"], {"C05"}, seed=seed + 3, nsessions=250 if tier == "quick" else 2500)
